@@ -1170,6 +1170,7 @@ func (tr *fnTrans) loopEnv(li *loopInfo, phiVal func(*ssa.Phi) Term, heap map[st
 			e.vars[name] = phiVal(phi)
 		}
 	}
+	tr.rebindRenamed(li, h, e)
 	if _, has := e.vars["#outer"]; !has {
 		// nearest enclosing range loop over a string: inside its body the iterator has already advanced past the current
 		// character, so the index of the current character is counter-1 and "#outer" (current index - 1) is counter-2
@@ -1493,4 +1494,113 @@ func callCycle(fn *ssa.Function) string {
 		return found
 	}
 	return ""
+}
+
+// specIdents collects the free identifiers of a specification expression.
+func specIdents(x Expr, bound map[string]bool, out map[string]bool) {
+	switch x := x.(type) {
+	case EIdent:
+		if !bound[x.Name] {
+			out[x.Name] = true
+		}
+	case EBin:
+		specIdents(x.L, bound, out)
+		specIdents(x.R, bound, out)
+	case EUn:
+		specIdents(x.X, bound, out)
+	case ECall:
+		for _, a := range x.Args {
+			specIdents(a, bound, out)
+		}
+	case EIndex:
+		specIdents(x.X, bound, out)
+		specIdents(x.I, bound, out)
+	case EField:
+		specIdents(x.X, bound, out)
+	case EOld:
+		specIdents(x.X, bound, out)
+	case EIte:
+		specIdents(x.C, bound, out)
+		specIdents(x.A, bound, out)
+		specIdents(x.B, bound, out)
+	case ELet:
+		specIdents(x.Val, bound, out)
+		b2 := map[string]bool{x.Name: true}
+		for k := range bound {
+			b2[k] = true
+		}
+		specIdents(x.Body, b2, out)
+	case EQuant:
+		b2 := map[string]bool{}
+		for k := range bound {
+			b2[k] = true
+		}
+		for _, v := range x.Vars {
+			b2[v.Name] = true
+		}
+		for _, ps := range x.Pats {
+			for _, p := range ps {
+				specIdents(p, b2, out)
+			}
+		}
+		specIdents(x.Body, b2, out)
+	}
+}
+
+// rebindRenamed: a loop invariant names loop-carried locals by their source names.  When exactly one name used by the
+// invariants of a loop is unknown and exactly one loop-carried local of that loop is mentioned by none of them, the
+// local was renamed in the source: the unknown name is bound to it.  This cannot make a wrong program verify - an
+// invariant is only a proof artifact, and whatever formula results must still be established and preserved - it only
+// keeps a rename from turning into a contract error.
+func (tr *fnTrans) rebindRenamed(li *loopInfo, h *ssa.BasicBlock, e *specEnv) {
+	if li == nil || li.spec == nil || h == nil {
+		return
+	}
+	used := map[string]bool{}
+	for _, inv := range li.spec.Invs {
+		specIdents(inv.E, map[string]bool{}, used)
+	}
+	if li.spec.Dec != nil {
+		specIdents(li.spec.Dec.E, map[string]bool{}, used)
+	}
+	var unknown []string
+	for n := range used {
+		if _, ok := e.vars[n]; ok {
+			continue
+		}
+		if sig, ok := tr.v.prelude.Sigs[n]; ok && len(sig.Args) == 0 {
+			continue
+		}
+		if strings.HasPrefix(n, "#") || strings.HasPrefix(n, "NT_") || strings.HasPrefix(n, "addrof_") {
+			continue
+		}
+		unknown = append(unknown, n)
+	}
+	if len(unknown) != 1 {
+		return
+	}
+	var unusedPhis []string
+	for _, in := range h.Instrs {
+		phi, ok := in.(*ssa.Phi)
+		if !ok {
+			break
+		}
+		if phi.Comment == "" || phi.Comment == "rangeindex" || used[phi.Comment] {
+			continue
+		}
+		if _, ok := e.vars[phi.Comment]; ok {
+			unusedPhis = append(unusedPhis, phi.Comment)
+		}
+	}
+	if len(unusedPhis) != 1 {
+		return
+	}
+	e.vars[unknown[0]] = e.vars[unusedPhis[0]]
+	msg := fmt.Sprintf("%s: loop %d: invariant name %q is bound to the loop-carried local %q (renamed in the source?)", tr.key, li.ord, unknown[0], unusedPhis[0])
+	for _, w := range tr.warns {
+		if w == msg {
+			return
+		}
+	}
+	tr.warns = append(tr.warns, msg)
 }
